@@ -619,7 +619,33 @@ func (x *inst) battery(note string) {
 	}) {
 		return
 	}
-	x.cmpEnum("Iter", out, want, note)
+	if x.cmpEnum("Iter", out, want, note) && len(want) > 0 && len(want) <= 64 {
+		// two iterators over the unchanged set advanced in lock-step: each must still enumerate
+		// everything (an iterator's position is its own)
+		var out2 []uint32
+		if !x.call("Iter", func() {
+			out = out[:0]
+			a, b := x.bm.Iter(), x.bm.Iter()
+			for len(out) < limit {
+				na := a.Next()
+				if na {
+					out = append(out, a.Value())
+				}
+				nb := b.Next()
+				if nb {
+					out2 = append(out2, b.Value())
+				}
+				if !na && !nb {
+					break
+				}
+			}
+		}) {
+			return
+		}
+		if x.cmpEnum("Iter (first of two iterators advanced in lock-step)", out, want, note) {
+			x.cmpEnum("Iter (second of two iterators advanced in lock-step)", out2, want, note)
+		}
+	}
 
 	if !x.call("Range", func() {
 		out = out[:0]
